@@ -1,4 +1,5 @@
 import FrappyModel.Node.Logging
+import FrappyModel.Node.LoggingConc
 import FrappyModel.Small.Rotate
 /-
 C20 — Logging: exact per-connection routing, rotation keeps the newest files.
@@ -77,6 +78,52 @@ def judgeFrom (t : Tables) (mods : List String) (pre : List Op) : List (Op × Ou
 /-- `none` = the run satisfies the routing clause, `some i` = first offending event -/
 def judgeRouting (t : Tables) (mods : List String) (trace : List (Op × Out)) : Option Nat :=
   judgeFrom t mods [] trace
+
+
+/-! ## Routing under interleavings
+
+A run with a concurrent phase: a sequential prefix `pre`, then several threads working at the same time
+(`threads`: per thread the requests / connection events / records it issued, in its program order, each connection
+used by one thread only), then a sequential suffix `post` (probe records).  Read off the statement:
+* "other connections are unaffected": a connection that does nothing during the concurrent phase (a bystander)
+  receives a record emitted during that phase iff the level it chose before admits it - whatever the others do
+  at that moment;
+* a request is answered as it would be alone (its answer does not depend on the table);
+* afterwards every connection has the setting its own most recent choice gave it: the suffix is judged against the
+  history `pre ++ threads.flatten` (the setting of a pair depends only on the events of its own connection, so every
+  interleaving of the threads gives the same one - `setting_shuffle`). -/
+
+def activeConns (threads : List (List Op)) : List Conn := threads.flatten.flatMap opConns
+
+def bystanders (active : List Conn) (cs : List Conn) : List Conn := cs.filter (fun c => !active.contains c)
+
+/-- one event of a thread of the concurrent phase is in order -/
+def concEventOK (t : Tables) (mods : List String) (pre : List Op) (active : List Conn) (op : Op) (out : Out) : Bool :=
+  match op with
+  | .emit m lvl =>
+    match out with
+    | .delivered cs => bystanders active cs == bystanders active (expected t mods pre m lvl)
+    | _ => false
+  | op => out == (step t mods [] op).2
+
+/-- monitor for a run with a concurrent phase: `none` = in order, `some (phase, index)` = first offending event
+(phase 0: prefix, `k+1`: thread `k`, `threads.length + 1`: suffix) -/
+def judgeConc (t : Tables) (mods : List String) (pre : List (Op × Out)) (threads : List (List (Op × Out)))
+    (post : List (Op × Out)) : Option (Nat × Nat) :=
+  let preOps := pre.map (·.1)
+  let thrOps := threads.map (fun th => th.map (·.1))
+  let active := activeConns thrOps
+  match judgeRouting t mods pre with
+  | some i => some (0, i)
+  | none =>
+    let bad := (threads.zipIdx.filterMap (fun (th, k) =>
+      (th.zipIdx.find? (fun (e, _) => !concEventOK t mods preOps active e.1 e.2)).map (fun (_, i) => (k + 1, i))))
+    match bad.head? with
+    | some b => some b
+    | none =>
+      match judgeFrom t mods (preOps ++ thrOps.flatten) post with
+      | some i => some (threads.length + 1, i - (preOps ++ thrOps.flatten).length)
+      | none => none
 
 /-! ## Rotation -/
 
